@@ -196,6 +196,21 @@ def correspond(ctx, scale):
                             continue
                         f['decode'](mod, last_idx)
                         dist['decode_ops'] += 1
+                        # ... and the same indices decoded in other SHAPES: token by token (0-dim index tensors: basic indexing returns a VIEW of the
+                        # codebook), python ints, and with -1 at a position (a padded token of a masked call) - a decoder only reads
+                        try:
+                            flat_i = last_idx.reshape(-1) if last_idx.ndim <= 2 else None
+                            if flat_i is not None and flat_i.numel():
+                                for tok in (flat_i[0], flat_i[-1], torch.tensor(-1), torch.tensor([-1, int(flat_i[0])])):
+                                    for meth in ('get_codes_from_indices', 'get_output_from_indices'):
+                                        if hasattr(mod, meth):
+                                            try:
+                                                getattr(mod, meth)(tok)
+                                            except Exception:
+                                                pass           # a shape the decoder rejects is not a silent change
+                                dist['decode_shape_variants'] = dist.get('decode_shape_variants', 0) + 1
+                        except Exception:
+                            pass
                         ret = None
                     elif op == 'bad-eval':
                         # an evaluation call that FAILS (input of the wrong width / an all-padding mask where k-means has nothing to sample): whether it
